@@ -90,7 +90,7 @@ REFUSED = {
     "startswith of a tuple": "def f(d, x, o):\n    if x.startswith(('a', 'b')):\n        return 'y'\n    return x\n",
     "len of a string": "def f(d, x, o):\n    if len(x) == 1:\n        return 'y'\n    return x\n",
     "shadowed builtin": "def f(d, x, o):\n    len = 'a'\n    if len(x.split()) == 1:\n        return 'y'\n    return x\n",
-    "loop with continue": "def f(d, x, o):\n    n = 0\n    for w in x.split():\n        if w == 'a':\n            continue\n        n += 1\n    if n == 1:\n        return 'y'\n    return x\n",
+    "loop with continue": "def f(d, x, o):\n    n = 0\n    for w in x.split():\n        n += 1\n        if w == 'a':\n            continue\n        n += 1\n    if n == 1:\n        return 'y'\n    return x\n",
     "loop with break and no else": "def f(d, x, o):\n    n = 0\n    for w in x.split():\n        n += 1\n        if w == 'a':\n            break\n    if n == 1:\n        return 'y'\n    return x\n",
     "flag loop whose else sets True": "def f(d, x, o):\n    for w in x.split():\n        b = w == 'a'\n        if b:\n            break\n    else:\n        b = True\n    if b:\n        return 'y'\n    return x\n",
     "flag loop whose flag is set before": "def f(d, x, o):\n    b = True\n    for w in x.split():\n        b = w == 'a'\n        if b:\n            break\n    else:\n        b = False\n    if b:\n        return 'y'\n    return x\n",
@@ -520,6 +520,8 @@ def differential():
 
 def main():
     bad = differential() + differential2() + differential3() if "--no-lean" not in sys.argv else []
+    import pygen_selftest_pxready              # leading `continue` guards, lambdas in declared calls, `l[0]`
+    bad += pygen_selftest_pxready.run("--no-lean" not in sys.argv)
     for what, src in REFUSED.items():
         try:
             tree = ast.parse(src)
